@@ -110,6 +110,7 @@ def run(ctx):
         resolver_rules(chk, fx, ty, rn, paths)
     r4_recursive(chk, fx)
     r5_cli(chk, fx)
+    r6_agent_delivery(chk, fx)
 
 
 QUERY_ADT = ("irrc::query::Query", "irrc::Query")
@@ -343,3 +344,15 @@ def r5_cli(chk, fx):
     chk.instance("C11/R5", "the CLI iterates evaluate(..).ranges() itself (no adaptor): %s" % " <- ".join(names[:4]), mn, loc_of(t.get("sp")), holds=ok,
                  key="C11/R5 cli print chain")
     chk.instance("C11/R5", "each range is printed with its Display form", mn, loc_of(t.get("sp")), holds=pr_ok, key="C11/R5 cli print closure")
+
+
+# ---------------------------------------------------------------------------------------------
+def r6_agent_delivery(chk, fx):
+    """'.. and the agent installs exactly that set': between the evaluation and the router lie (a) the evaluator's connection, which
+    must survive a failed resolution or every later policy of the run evaluates to nothing (C17/R1's decision on with_connection), and
+    (b) the compare table, which must turn every evaluated policy into an update carrying the evaluated sets against the installed
+    ones (C01/R1's decision table).  Both are shared rules, recorded here under C11/R6."""
+    from . import c01, c17
+    from .c15 import _Rename
+    c17.r1_restore(_Rename(chk, "C17/R1", "C11/R6:conn"), fx, fx.body(c17.WC))
+    c01.r1_compare(_Rename(chk, "C01/R1", "C11/R6:compare"), fx)
